@@ -295,4 +295,55 @@ def specFeed (t : SpecSt) (c : List Nat) (out : List Frame × Status × Nat) : S
   let v := specFeedKey all frames out.2.1 out.2.2 t.prevErr
   ({ all := all, frames := frames, prevErr := t.prevErr || (out.2.1 != .need) }, v)
 
+/-! ## encoding a SEQUENCE of frames into one output buffer (`dst: &mut BytesMut` is shared) -/
+
+inductive EncErr | dataTooBig
+  deriving DecidableEq, Repr
+
+/-- `<Codec as Encoder>::encode(item, dst)`: the result and `dst` afterwards.  The size check comes
+before anything is written, so a rejected frame leaves `dst` as it was. -/
+def encodeInto (dst : List Nat) (f : Frame) : Except EncErr Unit × List Nat :=
+  match encode f with
+  | none => (.error .dataTooBig, dst)
+  | some bs => (.ok (), dst ++ bs)
+
+/-- the buffer after encoding a list of frames one after the other, errors ignored by the caller -/
+def encodeSeq (dst : List Nat) : List Frame → List Nat
+  | [] => dst
+  | f :: fs => encodeSeq (encodeInto dst f).2 fs
+
+/-- the frames the encoder accepts -/
+def accepted (fs : List Frame) : List Frame := fs.filter (fun f => decide (f.payload.length ≤ MAX_FRAME_SIZE))
+
+/-- Spec state for the shared-buffer family: the bytes the implementation's buffer holds (as
+reported step by step) and the frames it accepted -/
+structure EncSpecSt where
+  buf : List Nat := []
+  acc : List Frame := []
+
+/-- judge one `encode` into the shared buffer: `ok` = it returned `Ok`, `add` = the bytes that
+appeared at the end of the buffer, `len` = the buffer length afterwards, `prefixSame` = the old
+contents are still there unchanged -/
+def specEncInto (t : EncSpecSt) (f : Frame) (ok : Bool) (add : List Nat) (len : Nat) (prefixSame : Bool) :
+    EncSpecSt × String :=
+  let t' : EncSpecSt := { buf := t.buf ++ add, acc := if ok then t.acc ++ [f] else t.acc }
+  let big := decide (f.payload.length > MAX_FRAME_SIZE)
+  if ok == big then (t', "encode_limit")
+  else if !ok then
+    (t', if add.isEmpty && prefixSame && len == t.buf.length then "ok" else "reject_leaves_buffer")
+  else if !(prefixSame && len == t.buf.length + add.length) then (t', "encode_appends")
+  else if f.wire && !(drain .begin add == ([f], St.begin, [], none)) then (t', "roundtrip")
+  else (t', "ok")
+
+/-- judge one decode pass over the whole shared buffer (under some split): exactly the accepted
+frames, in order, nothing left, no error -/
+def specDecs (t : EncSpecSt) (frames : List Frame) (last : Status) (rem : Nat) : String :=
+  let want := if t.acc.all Frame.wire then t.acc else (drain .begin t.buf).1
+  if frames == want && last == .need && rem == 0 then "ok" else "stream_roundtrip"
+
+/-- cut a buffer into chunks of the given sizes (the rest is the last chunk) -/
+def cutChunks (buf : List Nat) : List Nat → List (List Nat)
+  | [] => [buf]
+  | n :: ns => buf.take n :: cutChunks (buf.drop n) ns
+
 end C25
